@@ -54,6 +54,9 @@ pub struct TPlan {
     pub half_close: Option<(usize, bool)>,
     /// the destination stops reading after this many bytes (back-pressure stall)
     pub host_stops_reading_after: Option<u64>,
+    /// the destination drains slowly: this many bytes per read, one read every `1` µs
+    #[serde(default)]
+    pub host_slow_drain: Option<(usize, u64)>,
     pub to_host_cap: usize,
 }
 
@@ -92,6 +95,7 @@ impl Scenario for Timeouts {
         let mut xfers = Vec::new();
         let mut half_close = None;
         let mut host_stops = None;
+        let mut slow: Option<(usize, u64)> = None;
         if mode == Mode::Idle {
             let style = rng.below(6);
             let n = match style {
@@ -138,6 +142,17 @@ impl Scenario for Timeouts {
             if half_close.is_none() && n >= 1 && rng.chance(1, 6) {
                 host_stops = Some(rng.below(4096));
             }
+            if half_close.is_none() && host_stops.is_none() && rng.chance(1, 5) {
+                // one-sided: a long silence, then one big upload which a slow destination
+                // drains in small steps, each well inside T, for longer than T in total
+                xfers.clear();
+                let first_pct = *rng.pick(&[20u64, 60, 99, 130, 180]);
+                // 10-40 drain steps of `per` bytes each
+                let per = 64 + rng.usize_below(512);
+                let steps = 10 + rng.usize_below(30);
+                xfers.push(Xfer { after_us: t * first_pct / 100, up: true, len: per * steps });
+                slow = Some((per, t * rng.range(10, 45) / 100));
+            }
         }
         let plan = TPlan {
             seed: rng.next_u64(),
@@ -148,7 +163,13 @@ impl Scenario for Timeouts {
             xfers,
             half_close,
             host_stops_reading_after: host_stops,
-            to_host_cap: if host_stops.is_some() { rng.size(16, 2048) as usize } else { 64 * 1024 },
+            host_slow_drain: slow,
+            to_host_cap: match (host_stops, slow) {
+                // the socket buffer holds about one drain step: every step is a partial write
+                (_, Some((per, _))) => per + rng.usize_below(per),
+                (Some(_), None) => rng.size(16, 2048) as usize,
+                _ => 64 * 1024,
+            },
         };
         to_plan(&plan)
     }
@@ -247,11 +268,23 @@ async fn run(plan: TPlan) -> Obs {
         let obs = obs.clone();
         let host_conn = host_conn.clone();
         let stops = plan.host_stops_reading_after;
+        let slow = plan.host_slow_drain;
         tokio::spawn(async move {
             let (_, conn) = world::next_established().await;
             *host_conn.lock().unwrap() = Some(conn.clone());
             let mut got = 0u64;
             loop {
+                if let Some((n, gap)) = slow {
+                    match conn.read(n).await {
+                        PeerRead::Data(d) => {
+                            got += d.len() as u64;
+                            obs.lock().unwrap().host_rx_times.push((world::now_us(), d.len()));
+                            sleep_us(gap).await;
+                            continue;
+                        }
+                        _ => break,
+                    }
+                }
                 if let Some(s) = stops {
                     if got >= s {
                         // the destination stops reading: back-pressure from here on
@@ -286,7 +319,11 @@ async fn run(plan: TPlan) -> Obs {
         tokio::spawn(async move { core.verif_serve_session(h2, stream, "vpn.example".into(), None).await })
     };
 
-    let total_plan_us: u64 = plan.xfers.iter().map(|x| x.after_us).sum();
+    let drain_us: u64 = plan
+        .host_slow_drain
+        .map(|(n, gap)| (plan.xfers.iter().map(|x| x.len).sum::<usize>() / n.max(1) + 2) as u64 * (gap + 1_000))
+        .unwrap_or(0);
+    let total_plan_us: u64 = plan.xfers.iter().map(|x| x.after_us).sum::<u64>() + drain_us;
     let window = Duration::from_micros(
         total_plan_us + 4 * plan.idle_timeout_us + 2 * plan.establish_timeout_us + 10_000_000,
     );
@@ -593,11 +630,12 @@ fn judge(plan: &TPlan, o: &Obs, out: &mut Outcome) {
             };
             let stalled = plan.host_stops_reading_after.is_some();
             out.cell(format!(
-                "idle:{}:{}{}{}",
+                "idle:{}:{}{}{}{}",
                 proto,
                 if plan.xfers.is_empty() { "no-traffic" } else { "traffic" },
                 if plan.half_close.is_some() { ":half-close" } else { "" },
-                if stalled { ":stall" } else { "" }
+                if stalled { ":stall" } else { "" },
+                if plan.host_slow_drain.is_some() { ":slow-drain" } else { "" }
             ));
             out.nontrivial = true;
             // planned silences (between consecutive planned transfers): never longer than T - 3 ms?
@@ -625,6 +663,26 @@ fn judge(plan: &TPlan, o: &Obs, out: &mut Outcome) {
                         ),
                     );
                     return;
+                }
+            }
+            // (1b) whatever the pattern: the idle timer never closes a tunnel whose last
+            // transfer (as the world recorded it) is younger than T
+            if let Some(c) = closed {
+                let before: Option<u64> = acts.iter().filter(|a| **a <= c).max().copied();
+                let delivered_up: usize = o.host_rx_times.iter().map(|x| x.1).sum();
+                let wanted_up: usize = plan.xfers.iter().filter(|x| x.up).map(|x| x.len).sum();
+                if let Some(b) = before {
+                    if c + 3 * ms < b + t && plan.half_close.is_none() && !stalled && (delivered_up < wanted_up || plan.host_slow_drain.is_none()) && plan.host_slow_drain.is_some() {
+                        out.violate(
+                            "C14",
+                            format!("idle:{}:closed-while-draining", proto),
+                            format!(
+                                "T = {} us; the tunnel was closed at {} us, {} us after the last transfer at {} us ({} of {} upload bytes delivered, destination draining {:?})",
+                                t, c, c - b, b, delivered_up, wanted_up, plan.host_slow_drain
+                            ),
+                        );
+                        return;
+                    }
                 }
             }
             // (2) closed no later than 2T after the last activity, and not before T
